@@ -110,7 +110,12 @@ def run(ctx):
                                sb.play.KeepAlivePacket(keep_alive_id=77)):
                         before = len(srv.frames)
                         log.append(('OUT', class_of(pk), type(pk).__name__))
-                        conn.write_packet(pk, force=True)
+                        try:
+                            conn.write_packet(pk, force=True)
+                        except IgnorePacket:
+                            ctx.violation('IgnorePacket raised by an outgoing listener escaped to the caller of '
+                                          'write_packet(force=True)', {'packet': type(pk).__name__},
+                                          key={'kind': 'ignore-escapes', 'packet': type(pk).__name__})
                         log.append(('W', len(srv.frames) - before))
         finally:
             for R, f in react_wrapped.items():
